@@ -6,6 +6,9 @@ def T(shards=8, procs=2, timeout=600, **kw):
     return d
 
 CHECKS = {
+    "C09": {"pkg": "c09", "level": "exploration",
+            "quick": T(8, 2, 600), "thorough": T(14, 1, 2400),
+            "assumptions": ["emission order = order of WriteTo calls on the injected PacketConn", "interleavings of concurrent writers are whatever the Go scheduler produces inside the bubble"]},
     "C05": {"pkg": "c05", "level": "exploration",
             "quick": T(8, 2, 600), "thorough": T(14, 1, 2400),
             "assumptions": ["forger holds no keys; AEAD/HMAC primitives of the standard library are sound"]},
